@@ -15,6 +15,7 @@ import TonVerif.Proofs.SrcBocDeser
 import TonVerif.Proofs.SrcOrderAny
 import TonVerif.Proofs.SrcBocAny
 import TonVerif.Proofs.SrcHashmapCnt
+import TonVerif.Proofs.SrcBocCnt
 
 namespace TonVerif.Properties.C19
 open TonVerif TonVerif.Model TonVerif.Model.Cost TonVerif.Proofs.Cost
@@ -365,6 +366,64 @@ theorem c19_src_loop_iterations {ι σ : Type} (f : ι → σ → Option (σ × 
       · have := ih r.1; simp; omega
 
 example : loopIters [1, 2, 3] 0 (fun x s => if x = 2 then some (s, true) else some (s + x, false)) = 2 := by decide
+
+/-! ## BEGIN c19src — the ITERATION-COUNTING copy of the regenerated BoC parser (`Generated.BocCnt`, harness/translate/boccnt.py)
+
+`Generated.BocCnt.deserialize_cnt` is the text of `Generated.BocCells.deserialize` / `deserialize_cell` (regenerated from deserialize.py on every
+run) in the counting writer `Py.W`: every `Py.loop?` is a `Py.loopW? k` that ticks counter `k` once per iteration started.  Counters on the
+current source: 5 `for ci in range(cells_num)`, 0 `for r in range(total_refs)` (inside `deserialize_cell`), 3 `for ci in reversed(range(cells_num))`,
+4 `for ri in range(len(c['refs']))`, 2 `for ri in header['root_list']`, 1 the completion-tag search `for j in range(-1, -8, -1)`. -/
+section SrcBocCnt
+open TonVerif.Generated.BocCnt
+
+/-- ERASURE: the counting copy computes exactly the value of the regenerated `Boc.deserialize`, for every byte string and every constructor
+callback - so the copy is not trusted for values; what is read off its text is only which loop ticks which counter (and that placement is
+validated against CPython line events on every change). -/
+theorem c19_src_boc_erase {R : Type} (data : Bytes) (cls : Bits → List (Option R) → Int → Option R) :
+    (deserialize_cnt data cls).1 = Generated.BocCells.deserialize data cls :=
+  TonVerif.Proofs.SrcBocCnt.deserialize_cnt_erase data cls
+
+/-- BRIDGE to the cost model: for EVERY byte string and callback the iteration counts of the regenerated loops never exceed `bocCost`'s counters
+`loop1 / refs1 / loop2 / refs2 / loop3`, nothing else ticks but the completion-tag search, and when the parse RETURNS they are EQUAL.
+(They can be smaller when the parse raises for a reason the cost model does not follow - exotic cell without type byte, reference order, the
+callback: the upper-bound convention of Model/Cost.lean.)  So `c19_boc_parse` / `c19_boc_parse_all` are statements about the loops as written. -/
+theorem c19_src_boc_counters {R : Type} (data : Bytes) (cls : Bits → List (Option R) → Int → Option R) :
+    ((deserialize_cnt data cls).2 5 ≤ (bocCost data).loop1 ∧ (deserialize_cnt data cls).2 0 ≤ (bocCost data).refs1 ∧
+     (deserialize_cnt data cls).2 3 ≤ (bocCost data).loop2 ∧ (deserialize_cnt data cls).2 4 ≤ (bocCost data).refs2 ∧
+     (deserialize_cnt data cls).2 2 ≤ (bocCost data).loop3 ∧ ∀ k, 6 ≤ k → (deserialize_cnt data cls).2 k = 0) ∧
+    ((Generated.BocCells.deserialize data cls).isSome →
+     (deserialize_cnt data cls).2 5 = (bocCost data).loop1 ∧ (deserialize_cnt data cls).2 0 = (bocCost data).refs1 ∧
+     (deserialize_cnt data cls).2 3 = (bocCost data).loop2 ∧ (deserialize_cnt data cls).2 4 = (bocCost data).refs2 ∧
+     (deserialize_cnt data cls).2 2 = (bocCost data).loop3) :=
+  TonVerif.Proofs.SrcBocCnt.src_boc_bridge data cls
+
+/-- `Cell.from_boc(bs)` AS WRITTEN, for EVERY byte string: the three loops of the regenerated `Boc.deserialize` start at most `len(bs) + 1`
+iterations together - a count field (`cells_num`, `roots_num`) larger than the bytes that follow is cut by a length check or by running out
+of bytes, never by the count alone - and all five loops (with the reference loops of `deserialize_cell` and of the second loop) at most
+`3·len(bs) + 5`. -/
+theorem c19_src_boc_parse {R : Type} (data : Bytes) (cls : Bits → List (Option R) → Int → Option R) :
+    (deserialize_cnt data cls).2 5 + (deserialize_cnt data cls).2 3 + (deserialize_cnt data cls).2 2 ≤ data.length + 1 ∧
+    (deserialize_cnt data cls).2 5 + (deserialize_cnt data cls).2 0 + (deserialize_cnt data cls).2 3 + (deserialize_cnt data cls).2 4
+      + (deserialize_cnt data cls).2 2 ≤ 3 * data.length + 5 := by
+  obtain ⟨⟨h5, h0, h3, h4, h2, _⟩, _⟩ := c19_src_boc_counters data cls
+  have b1 := c19_boc_parse data
+  have b2 := c19_boc_parse_all data
+  simp only [BocCost.outer, bocParseSteps, BocCost.total] at b1 b2
+  constructor <;> omega
+
+/-- non-vacuity: a 14-byte bag that declares 255 cells over 2 bytes of cell data: the first loop starts 2 iterations (the second one runs out
+of bytes), no other loop runs; and a valid one-cell bag (cell `00 00`... one root): loops 1, 2, 3 run once each and the parse returns. -/
+example : ((deserialize_cnt (R := Unit) [0xb5, 0xee, 0x9c, 0x72, 0x01, 0x01, 0xff, 0x01, 0x00, 0x02, 0x00, 0x00, 0x00] (fun _ _ _ => some ())).2 5,
+           (deserialize_cnt (R := Unit) [0xb5, 0xee, 0x9c, 0x72, 0x01, 0x01, 0xff, 0x01, 0x00, 0x02, 0x00, 0x00, 0x00] (fun _ _ _ => some ())).2 3)
+    = (2, 0) := by decide
+example : ((deserialize_cnt (R := Unit) [0xb5, 0xee, 0x9c, 0x72, 0x01, 0x01, 0x01, 0x01, 0x00, 0x02, 0x00, 0x00, 0x00] (fun _ _ _ => some ())).1.isSome,
+           (deserialize_cnt (R := Unit) [0xb5, 0xee, 0x9c, 0x72, 0x01, 0x01, 0x01, 0x01, 0x00, 0x02, 0x00, 0x00, 0x00] (fun _ _ _ => some ())).2 5,
+           (deserialize_cnt (R := Unit) [0xb5, 0xee, 0x9c, 0x72, 0x01, 0x01, 0x01, 0x01, 0x00, 0x02, 0x00, 0x00, 0x00] (fun _ _ _ => some ())).2 3,
+           (deserialize_cnt (R := Unit) [0xb5, 0xee, 0x9c, 0x72, 0x01, 0x01, 0x01, 0x01, 0x00, 0x02, 0x00, 0x00, 0x00] (fun _ _ _ => some ())).2 2)
+    = (true, 1, 1, 1) := by decide
+
+end SrcBocCnt
+/-! ## END c19src -/
 
 /-! ## the EMITTER's loops on the working tree (`Generated.BocEmitSrc`: `Cell.order`, `Cell.to_boc`, `Cell.serialize` regenerated from
 cell.py on every run) -/
